@@ -30,7 +30,9 @@ POLICY (`Bpmn.Spec.TokenGame`: all deviation switches off, every join decision i
   (`tokenGame_early_*`, `tokenGame_late_*`);
 * hence, when `cfg.inclCohort = false`, the statement exactly as conjectured (`conformance_*_ideal`);
 * per decision, a cause-free `igReady cfg` equals `igReady Cfg.ideal` or `igReady Cfg.idealLate`
-  (`conf_igReady_either`).
+  (`conf_igReady_either`);
+* at a gateway with at most one incoming flow (a pure fork: no join clause, `Engine.lateAt` is vacuous) the interval
+  collapses and a cause-free decision is the one of `Cfg.ideal` (`conf_igReady_fork_only`).
 
 A second gap was closed in the model rather than in the statement: with `subStartSticky = true` the code does not
 re-arm the inner start events of a sub-process, and `arrive` logged `sub_reentry` only when the completion monitor
@@ -127,6 +129,21 @@ theorem conf_igReady_either (cfg : Cfg) (h2 : cfg.lateJoin = false) (p : Proc) (
     generalize lateAt s n a g.arrived work = l
     generalize TokenGame.earlyAt p s n g work = e
     cases j <;> cases l <;> cases e <;> simp
+
+/-- **a pure fork has no join clause**: at a gateway with at most one incoming flow the late bound is vacuous
+(`Engine.lateAt`), the interval collapses, and a decision that logs nothing is the decision of `Cfg.ideal` — a code
+configuration that lets such a gateway wait logs `inclusive_cohort` -/
+theorem conf_igReady_fork_only (cfg : Cfg) (h2 : cfg.lateJoin = false) (p : Proc) (s : St) (n : Node) (g : IgSt)
+    (work : List Tok) (hin : n.ins.length ≤ 1) :
+    (igReady cfg p s n g work).2.causes = [] →
+    igReady cfg p s n g work = igReady Cfg.ideal p s n g work := by
+  intro h
+  have hlate : igReady Cfg.idealLate p s n g work = igReady Cfg.ideal p s n g work := by
+    unfold igReady lateAt
+    cases g.activated <;> simp [Cfg.ideal, Cfg.idealLate, hin]
+  rcases conf_igReady_either cfg h2 p s n g work h with h' | h'
+  · exact h'
+  · rw [h', hlate]
 
 /-! ### the steps that contain join decisions: against the token game under `joinOf cfg` -/
 
@@ -288,7 +305,8 @@ theorem C01Conformance_holds (cfg : Cfg) (h1 : cfg.eagerSettle = false) (h2 : cf
     C01Conformance_statement_policy cfg :=
   ⟨TokenGame.joinOf cfg, joinOf_admissible cfg, fun p vars ops => conformance_runOps cfg h1 h2 p vars ops⟩
 
-/-- s → F(inclusive fork) → {J, B → e2}; J(inclusive join) → C → F2(inclusive fork) → {T, J2};
+/-- s → F(inclusive fork) → {J, B → e2, J on a false condition}; J(inclusive join, two incoming flows) → C →
+F2(inclusive fork) → {T, J2};
 T(activity with two outgoing flows) → {J2, U → e3}; J2(inclusive join) → D → e.
 At `J` the sibling token waits at `B` and cannot reach `J` (it is in the cohort: the code waits, `late`);
 at `J2` the token at `U` was forked by the activity `T`, is not in the cohort and cannot reach `J2` (the code
@@ -296,10 +314,10 @@ releases, `early`). -/
 def mixProc : Proc :=
   { nodes := [
       { id := "s", kind := .start, ins := [], outs := ["f0"] },
-      { id := "F", kind := .incl, ins := ["f0"], outs := ["fa", "fb"] },
+      { id := "F", kind := .incl, ins := ["f0"], outs := ["fa", "fb", "fx"] },
       { id := "B", kind := .task, ins := ["fb"], outs := ["fb2"] },
       { id := "e2", kind := .end_, ins := ["fb2"], outs := [] },
-      { id := "J", kind := .incl, ins := ["fa"], outs := ["fj"] },
+      { id := "J", kind := .incl, ins := ["fa", "fx"], outs := ["fj"] },
       { id := "C", kind := .task, ins := ["fj"], outs := ["fc"] },
       { id := "F2", kind := .incl, ins := ["fc"], outs := ["g1", "g2"] },
       { id := "T", kind := .task, ins := ["g1"], outs := ["t1", "t2"] },
@@ -315,7 +333,7 @@ def mixProc : Proc :=
       { id := "g1", src := "F2", dst := "T", cond := .none }, { id := "g2", src := "F2", dst := "J2", cond := .none },
       { id := "t1", src := "T", dst := "J2", cond := .none }, { id := "t2", src := "T", dst := "U", cond := .none },
       { id := "u1", src := "U", dst := "e3", cond := .none }, { id := "fj2", src := "J2", dst := "D", cond := .none },
-      { id := "fd", src := "D", dst := "e", cond := .none }] }
+      { id := "fd", src := "D", dst := "e", cond := .none }, { id := "fx", src := "F", dst := "J", cond := .ff }] }
 
 def mixOps : List (String × Nat × Answer) := [("B", 1, .ok []), ("C", 1, .ok []), ("T", 1, .ok [])]
 
@@ -391,7 +409,7 @@ example : (selectFlows allOn mixProc { vars := [] } { fid := 1, node := "s" } ["
   decide
 example : (arrive allOn mixProc { vars := [] } { fid := 1, node := "s" }).2.causes = [] := by decide
 example : (arrive allOn subProc { vars := [] } { fid := 1, node := "U" }).2.causes = [] := by decide
-example : (igReady allOn mixProc { vars := [] } { id := "J", kind := .incl, ins := ["fa"], outs := ["fj"] }
+example : (igReady allOn mixProc { vars := [] } { id := "J", kind := .incl, ins := ["fa", "fx"], outs := ["fj"] }
     { gw := "J", activated := some 1, arrived := [1] } []).2.causes = [] := by decide
 example : (settleIncl allOn mixProc { vars := [] } []).2.causes = [] := by decide
 example : (settle allOn mixProc { vars := [] }).2.causes = [] := by decide
